@@ -139,8 +139,7 @@ structure DynOK (D : DynSpec) (out : List String) (ranks0 : List (List String)) 
   perm' : (D.rs'.zip D.es').Perm ((D.K1, extOf D.rsU D.esU D.K) :: (D.K0, extOf D.rsU D.esU D.K) :: (D.rsU.zip D.esU).erase (D.K, extOf D.rsU D.esU D.K))
   ne10 : D.K1 ≠ D.K0
   freshU : D.K1 ∉ D.rsU ∧ D.K0 ∉ D.rsU
-  outK : D.K ∉ out
-  outc : concord D.rs' out = concord D.rsU out
+  outc : concord D.rs' (renameRanks D.K D.K0 out) = renameRanks D.K D.K0 (concord D.rsU out)
   conc : ∀ aR ∈ ranks0, concord D.rsU aR = aR
   headK : ∀ aR ∈ ranks0, D.K ∈ aR → aR.head? = some D.K
   nd2 : ∀ aR ∈ ranks0, (splitRanks D.K D.K1 D.K0 aR).Nodup
@@ -407,7 +406,7 @@ theorem splitRanks_id (K K1 K0 : String) (rs : List String) (h : K ∉ rs) : spl
     the unpartitioned Einsum accumulate over the states handed over — whatever boundaries the leader's fiber defines -/
 theorem spec_split_equiv (D : DynSpec) (out : List String) (ranks0 : List (List String)) (H : DynOK D out ranks0)
     (st : TermSt) (R : Res D ranks0 st) (τ : List Nat) :
-    sumAt τ (spec (lv out D.rs' D.es') (dynStates D [st])) = sumAt τ (spec (lv out D.rsU D.esU) [st]) := by
+    sumAt τ (spec (lv (renameRanks D.K D.K0 out) D.rs' D.es') (dynStates D [st])) = sumAt τ (spec (lv out D.rsU D.esU) [st]) := by
   let g := D.g [st]
   let keep := D.keep [st]
   let e := extOf D.rsU D.esU D.K
@@ -472,7 +471,7 @@ theorem spec_split_equiv (D : DynSpec) (out : List String) (ranks0 : List (List 
   -- (ii) the dense inner nest over the split states
   have relS : RelP D.rs' z [splitTermP D.K D.K1 D.K0 g tR] [st'] :=
     ⟨⟨rfl, rfl, opsRelP_S D g keep z ranks0 st.ops R.len R.arity H.nd2 H.sub2⟩, trivial⟩
-  have hS := spec_sumF_P out [splitTermP D.K D.K1 D.K0 g tR] D.rs' D.es' [st'] z H.nd' H.len' relS τ
+  have hS := spec_sumF_P (renameRanks D.K D.K0 out) [splitTermP D.K D.K1 D.K0 g tR] D.rs' D.es' [st'] z H.nd' H.len' relS τ
   rw [hdyn, hS, hU]
   -- (iv)-(vii) the sums over the assignments
   have hperm := List.perm_cons_erase H.memK
@@ -488,46 +487,44 @@ theorem spec_split_equiv (D : DynSpec) (out : List String) (ranks0 : List (List 
     exact (List.of_mem_zip (a := p.1) (b := p.2) this).1
   rw [sumF_perm H.perm' _ (by rw [hkeys']; exact H.nd'), sumF_perm hperm _ (by rw [hkeysU]; exact H.ndU), H.outc]
   let outc := concord D.rsU out
-  have hKo : D.K ∉ outc := fun h => H.outK (mem_concord.1 h).2
-  change sumF ((D.K1, e) :: (D.K0, e) :: (D.rsU.zip D.esU).erase (D.K, e)) (summandP outc [splitTermP D.K D.K1 D.K0 g tR] τ) z =
+  change sumF ((D.K1, e) :: (D.K0, e) :: (D.rsU.zip D.esU).erase (D.K, e)) (summandP (renameRanks D.K D.K0 outc) [splitTermP D.K D.K1 D.K0 g tR] τ) z =
     sumF ((D.K, e) :: (D.rsU.zip D.esU).erase (D.K, e)) (summandP outc [tU] τ) z
-  by_cases hτ : τ.length = outc.length
-  · have Hs : SplitHypP D.K D.K1 D.K0 outc [tR] :=
-      { fresh_out := ⟨fun h => H.freshU.1 (mem_concord.1 h).1, fun h => H.freshU.2 (mem_concord.1 h).1⟩,
-        fresh := by
-          intro t ht a ha
-          simp at ht; subst ht
-          obtain ⟨i, aR, o, h1, _, rfl⟩ := accsR_index D.K keep ranks0 st.ops a ha
-          have hm : aR ∈ ranks0 := List.mem_of_getElem? h1
-          have hc := H.conc aR hm
-          exact ⟨fun h => H.freshU.1 (by rw [← hc] at h; exact (mem_concord.1 h).1),
-                 fun h => H.freshU.2 (by rw [← hc] at h; exact (mem_concord.1 h).1)⟩,
-        arity := by
-          intro t ht a ha p hp
-          simp at ht; subst ht
-          obtain ⟨i, aR, o, h1, h2, rfl⟩ := accsR_index D.K keep ranks0 st.ops a ha
-          exact R.arity i aR o h1 h2 p (restrictPts_subset _ _ _ _ p hp),
-        cover := by
-          intro _ t ht
-          simp at ht; subst ht
-          exact ⟨⟨aL, restrictPts D.K keep aL oL.pts⟩, accsR_mem D.K keep ranks0 st.ops D.leadO aL oL haL hoL, hKL⟩ }
-    have hsp := sumF_splitP D.K D.K1 D.K0 g e e ((D.rsU.zip D.esU).erase (D.K, e)) outc [tR] τ z hg hK
-      (fun h => H.freshU.1 (hsub _ h)) (fun h => H.freshU.2 (hsub _ h)) H.ne10 Hs hτ
-    rw [splitRanks_id D.K D.K1 D.K0 outc hKo, splitPt_of_not_mem D.K g outc τ hKo] at hsp
-    simp only [List.map_cons, List.map_nil] at hsp
-    rw [hsp]
-    apply sumF_congr
-    intro f
-    unfold summandP
-    simp only [List.map_cons, List.map_nil]
-    have hk : st.kind = .times := R.kind
-    have := termVal_restrict D.K keep f st.scal ranks0 st.ops D.leadO aL oL haL hoL hLh hkeepL
-    show (if outc.map f = τ then [termValP f ⟨st.kind, st.scal, accsR D.K keep ranks0 st.ops⟩].sum else 0) =
-      (if outc.map f = τ then [termValP f ⟨st.kind, st.scal, accsU ranks0 st.ops⟩].sum else 0)
-    rw [hk, this]
-  · rw [sumF_congr _ _ (fun _ => 0) (fun f => summandP_len outc _ τ hτ f), sumF_zero,
-        sumF_congr _ _ (fun _ => 0) (fun f => summandP_len outc _ τ hτ f), sumF_zero]
-
+  have Hs : SplitHypP D.K D.K1 D.K0 outc [tR] :=
+    { fresh_out := ⟨fun h => H.freshU.1 (mem_concord.1 h).1, fun h => H.freshU.2 (mem_concord.1 h).1⟩,
+      fresh := by
+        intro t ht a ha
+        simp at ht; subst ht
+        obtain ⟨i, aR, o, h1, _, rfl⟩ := accsR_index D.K keep ranks0 st.ops a ha
+        have hm : aR ∈ ranks0 := List.mem_of_getElem? h1
+        have hc := H.conc aR hm
+        exact ⟨fun h => H.freshU.1 (by rw [← hc] at h; exact (mem_concord.1 h).1),
+               fun h => H.freshU.2 (by rw [← hc] at h; exact (mem_concord.1 h).1)⟩,
+      arity := by
+        intro t ht a ha p hp
+        simp at ht; subst ht
+        obtain ⟨i, aR, o, h1, h2, rfl⟩ := accsR_index D.K keep ranks0 st.ops a ha
+        exact R.arity i aR o h1 h2 p (restrictPts_subset _ _ _ _ p hp),
+      cover := by
+        intro _ t ht
+        simp at ht; subst ht
+        exact ⟨⟨aL, restrictPts D.K keep aL oL.pts⟩, accsR_mem D.K keep ranks0 st.ops D.leadO aL oL haL hoL, hKL⟩ }
+  have hcov : ∀ t ∈ [tR], ∃ a ∈ t.accs, D.K ∈ a.ranks := by
+    intro t ht
+    simp at ht; subst ht
+    exact ⟨⟨aL, restrictPts D.K keep aL oL.pts⟩, accsR_mem D.K keep ranks0 st.ops D.leadO aL oL haL hoL, hKL⟩
+  have hsp := sumF_splitP_merged D.K D.K1 D.K0 g e e ((D.rsU.zip D.esU).erase (D.K, e)) outc [tR] τ z hg hK
+    (fun h => H.freshU.1 (hsub _ h)) (fun h => H.freshU.2 (hsub _ h)) H.ne10 Hs hcov
+  simp only [List.map_cons, List.map_nil] at hsp
+  rw [hsp]
+  apply sumF_congr
+  intro f
+  unfold summandP
+  simp only [List.map_cons, List.map_nil]
+  have hk : st.kind = .times := R.kind
+  have := termVal_restrict D.K keep f st.scal ranks0 st.ops D.leadO aL oL haL hoL hLh hkeepL
+  show (if outc.map f = τ then [termValP f ⟨st.kind, st.scal, accsR D.K keep ranks0 st.ops⟩].sum else 0) =
+    (if outc.map f = τ then [termValP f ⟨st.kind, st.scal, accsU ranks0 st.ops⟩].sum else 0)
+  rw [hk, this]
 
 theorem zipWith2_length {α β γ : Type} (f : α → β → γ) : ∀ (as : List α) (bs : List β), bs.length = as.length →
     (zipWith2 f as bs).length = as.length
@@ -605,7 +602,7 @@ theorem inner_equiv_gen (D : DynSpec) (out : List String) (ranks0 : List (List S
         o'.sched = schedOf D.rs' (splitRanks D.K D.K1 D.K0 aR) ∧
         ∀ p ∈ o'.pts, p.1.length = (concord D.rs' (splitRanks D.K D.K1 D.K0 aR)).length) →
       (∀ o' ∈ st'.ops, OpBounded D.es' o') →
-      ∀ τ, sumAt τ (kin [st']) = sumAt τ (spec (lv out D.rs' D.es') [st']))
+      ∀ τ, sumAt τ (kin [st']) = sumAt τ (spec (lv (renameRanks D.K D.K0 out) D.rs' D.es') [st']))
     (st : TermSt) (R : Res D ranks0 st) (τ : List Nat) :
     sumAt τ (kin (dynStates D [st])) = sumAt τ (spec (lv out D.rsU D.esU) [st]) := by
   obtain ⟨st', hdyn, hk, hl, hso, hb⟩ := split_state D out ranks0 H st R
@@ -629,8 +626,8 @@ theorem run_inner (out : List String) (rs : List String) (es : List Nat) (hlen :
 
 theorem inner_equiv (D : DynSpec) (out : List String) (ranks0 : List (List String)) (H : DynOK D out ranks0)
     (st : TermSt) (R : Res D ranks0 st) (τ : List Nat) :
-    sumAt τ (run (lv out D.rs' D.es') (dynStates D [st])) = sumAt τ (spec (lv out D.rsU D.esU) [st]) :=
-  inner_equiv_gen D out ranks0 H (run (lv out D.rs' D.es'))
-    (fun st' hk _ _ hb τ => run_inner out D.rs' D.es' H.len' st' hk hb τ) st R τ
+    sumAt τ (run (lv (renameRanks D.K D.K0 out) D.rs' D.es') (dynStates D [st])) = sumAt τ (spec (lv out D.rsU D.esU) [st]) :=
+  inner_equiv_gen D out ranks0 H (run (lv (renameRanks D.K D.K0 out) D.rs' D.es'))
+    (fun st' hk _ _ hb τ => run_inner (renameRanks D.K D.K0 out) D.rs' D.es' H.len' st' hk hb τ) st R τ
 
 end C03
